@@ -22,6 +22,13 @@ HARNESS = {
         "libs/log/src/log/object.cpp",
         "libs/log/src/log/out.cpp",
         "libs/log/src/log/parameters.cpp",
+        "libs/log/src/log/parameters_no_function.cpp",
+        "libs/log/src/log/level_from_string.cpp",
+        "libs/log/src/log/level_input.cpp",
+        "libs/log/src/log/level_output.cpp",
+        "libs/log/src/log/default_level_streams.cpp",
+        "libs/log/src/log/default_stream.cpp",
+        "libs/log/src/log/format/time_stamp.cpp",
         # libs/log, impl part
         "libs/log/impl/src/log/impl/convert_level.cpp",
         "libs/log/impl/src/log/impl/find_child.cpp",
@@ -32,6 +39,10 @@ HARNESS = {
         "libs/core/src/exception.cpp",
         "libs/core/src/from_std_string.cpp",
         "libs/core/src/io/cerr.cpp",
+        "libs/core/src/io/clog.cpp",
+        "libs/core/src/time/localtime.cpp",
+        "libs/core/src/time/std_time.cpp",
+        "libs/core/src/to_std_string.cpp",
         "libs/core/src/assert/information.cpp",
         "libs/core/src/insert_extract_locale.cpp",
     ],
@@ -43,7 +54,7 @@ HARNESS = {
 # the second harness: the same library sources under ThreadSanitizer, several threads on one context
 HARNESS_TSAN = {
     "src": "harness/c19_tsan.cpp",
-    "repo_srcs": [x for x in HARNESS["repo_srcs"] if x != "libs/core/src/exception.cpp"] + ["libs/log/src/log/parameters_no_function.cpp"],
+    "repo_srcs": [x for x in HARNESS["repo_srcs"] if x != "libs/core/src/exception.cpp"],
     "flags": ["-DENABLE_THREADS", "-pthread"],
     "libs": [],
     "tsan": True,
@@ -135,7 +146,8 @@ def extra_checks(binp, rng, tier, ev):
 NAMES = ["a", "b", "c"]          # the same three names at every depth
 CFGS = ["D", "N", "M"]
 TAGS = ["F", "G", "Hx"]
-OBSERVATIONS = ("get", "lvl", "objr", "objl", "objc", "log", "logm")
+OBSERVATIONS = ("get", "lvl", "objr", "objl", "objc", "log", "logm", "logp", "fmt", "sink", "cstr", "enum", "case",
+                "lfs", "lts", "lout", "lin", "loc", "chain", "fn", "ts", "ls", "dstream", "dls", "params", "pnf")
 MAX_OPS = 60
 DEPTHS = [0, 1, 1, 2, 2, 2, 3, 3]   # depth of a freshly drawn location (the root wipes everything: keep it rarer)
 
@@ -181,7 +193,15 @@ def rand_level(r):
 
 
 def rand_fmt(r):
-    return "-" if r.chance(1, 2) else r.choice(TAGS)
+    return "-" if r.chance(1, 2) else r.choice(TAGS + ["P:p", "I:[:]", "L:2"])
+
+
+FMTX = ["-", "-", "F", "P:p", "P:", "I:<:>", "I::", "L:0", "L:3", "L:5"]
+
+
+def rand_fmtx(r):
+    """formatter descriptions incl. the library's own formatter factories (prefix / inserter / default_level)"""
+    return r.choice(FMTX)
 
 
 def rand_loc(r, used, max_depth=4):
@@ -211,13 +231,14 @@ def random_case(r):
         ops.append(ctx_line(r))
     used = []       # locations used so far in this case
     objs = []       # node location of every object, by id
+    alive = []      # ids of the objects not destroyed yet
     n = r.range(3, MAX_OPS)
 
     def new_obj():
         k = r.below(100)
         name = rand_name(r)
-        if objs and k < 30:
-            pid = r.below(len(objs))
+        if alive and k < 30:
+            pid = r.choice(alive)
             node = objs[pid] + [name]
             line = f"objc {pid} {name} {rand_fmt(r)}"
         elif k < 55:
@@ -227,6 +248,7 @@ def random_case(r):
             loc = rand_loc(r, used, 3)
             node = loc + [name]
             line = f"objl {loc_str(loc)} {name} {rand_fmt(r)}"
+        alive.append(len(objs))
         objs.append(node)
         used.append(node)
         return line
@@ -236,15 +258,28 @@ def random_case(r):
         if k < 25:
             loc = [] if r.chance(1, 25) else rand_loc(r, used)     # a set on the root rewrites the whole tree
             ops.append(f"set {loc_str(loc)} {rand_level(r)}")
-        elif k < 45:
+        elif k < 43:
             ops.append(f"get {loc_str(rand_loc(r, used))}")
-        elif k < 65 or not objs:
+        elif k < 45:
+            ops.append(f"cstr {r.below(6)} {rand_fmtx(r)} m{r.below(1000)}")
+        elif k < 63 or not alive:
             ops.append(new_obj())
-        elif k < 75:
-            ops.append(f"lvl {r.below(len(objs))}")
+        elif k < 65:
+            # destroy a log object: its node stays in the tree, its children (objects and nodes) are unaffected
+            i = r.choice(alive)
+            alive.remove(i)
+            ops.append(f"del {i}")
+        elif k < 73:
+            ops.append(f"lvl {r.choice(alive)}")
+        elif k < 76:
+            ops.append(f"fmt {r.choice(alive)} t{r.below(100)}")
+        elif k < 79:
+            ops.append(f"sink {r.choice(alive)} {r.below(6)} {rand_fmtx(r)} m{r.below(1000)}")
+        elif k < 82:
+            ops.append(f"logp {r.choice(alive)} {r.below(6)} p{r.below(100)} {'q' * r.below(12)}x")
         else:
             op = "log" if r.chance(1, 2) else "logm"
-            ops.append(f"{op} {r.below(len(objs))} {r.below(6)} m{r.below(1000)}")
+            ops.append(f"{op} {r.choice(alive)} {r.below(6)} m{r.below(1000)}")
     return ops
 
 
@@ -365,6 +400,228 @@ DOCS_EXAMPLE = [
 ]
 
 
+# ---- systematic small-scope batches ------------------------------------------------------------------------------
+def paths(names, depth):
+    """all locations over `names` up to that depth, shortest first"""
+    out, layer = [[]], [[]]
+    for _ in range(depth):
+        layer = [p + [n] for p in layer for n in names]
+        out += layer
+    return out
+
+
+def alphabet(names, depth, levels, ids=(0, 1)):
+    """state-changing operations over a small scope (tokens joined by `,`): every set(loc, lvl) with |loc| <= depth, the
+    three constructors wherever the new node has depth <= `depth` (objc: the parent's depth is not limited), formatter tied
+    to the name so that both kinds occur"""
+    fmt = {names[0]: "F", names[-1]: "-"}
+    ops = [f"set,{loc_str(l)},{v}" for l in paths(names, depth) for v in levels]
+    ops += [f"objr,{n},{fmt.get(n, 'G')}" for n in names]
+    ops += [f"objl,{loc_str(l)},{n},{fmt.get(n, 'G')}" for l in paths(names, depth - 1) for n in names]
+    ops += [f"objc,{i},{n},{fmt.get(n, 'G')}" for i in ids for n in names]
+    return ops
+
+
+def creates(op):
+    return op.startswith("obj")
+
+
+def op_valid(op, nobjs):
+    return not op.startswith("objc,") or int(op.split(",")[1]) < nobjs
+
+
+def count_words(alpha, k, nobjs, memo=None):
+    """number of accepted words of length k (an objc needs its parent)"""
+    memo = {} if memo is None else memo
+    cap = 1 + max([int(o.split(",")[1]) for o in alpha if o.startswith("objc,")] + [-1])
+    key = (k, min(nobjs, cap))
+    if k == 0:
+        return 1
+    if key not in memo:
+        memo[key] = sum(count_words(alpha, k - 1, min(nobjs, cap) + (1 if creates(o) else 0), memo) for o in alpha if op_valid(o, nobjs))
+    return memo[key]
+
+
+def prefixes_of(alpha, n):
+    """all accepted words of length n, as lists"""
+    out = [[]]
+    for _ in range(n):
+        out = [w + [o] for w in out for o in alpha if op_valid(o, sum(1 for x in w if creates(x)))]
+    return out
+
+
+def enum_lines(k, split, mode, root, cfg, alpha, locs, keep=None):
+    """`enum` lines covering every history of exactly k operations over `alpha`, one line per prefix of `split` operations
+    (keep(i) -> bool selects a sample of the prefixes)"""
+    a, l = ";".join(alpha), ",".join(loc_str(x) for x in locs)
+    out = []
+    for i, w in enumerate(prefixes_of(alpha, min(split, k))):
+        if keep is None or keep(i):
+            out.append(f"enum {k - len(w)} {mode} {root} {cfg} {';'.join(w) if w else '-'} {a} {l}")
+    return out
+
+
+def _case_lines(root, cfg, pre, mode, locs):
+    """the single observations the digest of one history is made of, as `case` lines"""
+    out = []
+    nobj = 0
+    for i in range(1, len(pre) + 1):
+        head = ";".join(pre[: i - 1]) if i > 1 else "-"
+        out.append(f"case {root} {cfg} {head} {pre[i - 1]}")
+        nobj += 1 if creates(pre[i - 1]) else 0
+        if mode == "e" or i == len(pre):
+            cur = ";".join(pre[:i])
+            out += [f"case {root} {cfg} {cur} get,{l}" for l in locs]
+            for j in range(nobj):
+                out.append(f"case {root} {cfg} {cur} lvl,{j}")
+                out.append(f"case {root} {cfg} {cur} {'log' if (j + i) % 2 == 0 else 'logm'},{j},{(j + i) % 6},m")
+    if not pre:
+        out += [f"case {root} {cfg} - get,{l}" for l in locs]
+    return out
+
+
+def refine(op):
+    """enum k -> the enum k-1 lines of its one-operation extensions; enum 0 -> the `case` lines of that one history"""
+    t = op.split()
+    if not t or t[0] != "enum" or len(t) != 8:
+        return []
+    k, mode, root, cfg, pre, alpha, locs = int(t[1]), t[2], t[3], t[4], t[5], t[6].split(";"), t[7]
+    pre = [] if pre == "-" else pre.split(";")
+    if k > 0:
+        nobjs = sum(1 for x in pre if creates(x))
+        return [f"enum {k - 1} {mode} {root} {cfg} {';'.join(pre + [o])} {t[6]} {locs}" for o in alpha if op_valid(o, nobjs)]
+    return _case_lines(root, cfg, pre, mode, locs.split(","))
+
+
+_WEIGHT_MEMO = {}
+
+
+def weight(op):
+    """an `enum` line counts as the histories it runs"""
+    t = op.split()
+    if t and t[0] == "enum" and len(t) == 8:
+        key = (t[1], t[5], t[6])
+        if key not in _WEIGHT_MEMO:
+            pre = [] if t[5] == "-" else t[5].split(";")
+            _WEIGHT_MEMO[key] = count_words(t[6].split(";"), int(t[1]), sum(1 for x in pre if creates(x)))
+        return _WEIGHT_MEMO[key]
+    return 1
+
+
+AB = ["a", "b"]
+OBS3 = paths(AB, 3)                                   # what is looked at after every step: all 15 locations of depth <= 3
+OBS2 = paths(AB, 2) + [["a", "a", "a"], ["a", "b", "a"], ["b", "a", "b"], ["b", "b", "b"]]
+FULL = alphabet(AB, 3, ["1", "3", "-"])               # 45 sets + 2 + 14 + 4 = 65 operations
+MID = alphabet(AB, 2, ["1", "3", "-"])                # 21 sets + 2 + 6 + 4 = 33 operations
+SMALL = alphabet(AB, 2, ["1", "-"])                   # 14 sets + 2 + 6 + 4 = 26 operations
+EMPTY = alphabet(["a", "_"], 2, ["1", "-"])           # the same with the empty name in place of b (tree_formatter skips it)
+
+
+def small_history_lines(rng, thorough):
+    """ALL histories of <= 3 operations over FULL (depth 3, three levels, root warning; observed after every step), ALL of
+    exactly 4 over MID (depth 2; observed at the end - every shorter history is there as well), of <= 3 over EMPTY, other root
+    levels / stream configurations over SMALL; a seeded 1/64 sample of the 4-operation histories over FULL (thorough: all of
+    them, the 3-operation ones without reads in between, and all 5-operation histories over SMALL)"""
+    out = []
+    for k in (0, 1, 2):
+        out += enum_lines(k, 1, "e", "3", "D", FULL, OBS3)
+        out += enum_lines(k, 1, "f", "3", "M", FULL, OBS3)        # observed at the end only (no reads in between)
+    out += enum_lines(3, 2, "e", "3", "D", FULL, OBS3)
+    for k in (3, 4):
+        out += enum_lines(k, 2, "f", "3", "D", MID, OBS2)
+    for root, cfg in (("-", "N"), ("1", "M")):
+        out += enum_lines(3, 1, "e", root, cfg, SMALL, OBS2)
+    out += enum_lines(3, 1, "e", "3", "D", EMPTY, paths(["a", "_"], 2) + [["a", "_", "a"], ["_", "_", "_"]])
+    r = rng.fork("enum-sample")
+    if thorough:
+        out += enum_lines(3, 2, "f", "3", "M", FULL, OBS3)
+        out += enum_lines(4, 2, "e", "3", "D", FULL, OBS3)
+        out += enum_lines(5, 2, "f", "3", "D", SMALL, OBS2)
+    else:
+        pick = r.below(64)
+        out += enum_lines(4, 2, "e", "3", "D", FULL, OBS3, keep=lambda i: i % 64 == pick)
+    # the runner cuts a stateless batch into contiguous parts: mix heavy and light lines
+    r.shuffle(out)
+    return out
+
+
+def api_lines():
+    """the rest of libs/log's public API, every small input"""
+    out = []
+    names = ["verbose", "debug", "info", "warning", "error", "fatal"]
+    words = names + [n.upper() for n in names[:2]] + [n.capitalize() for n in names[:2]] + [n[:-1] for n in names] + [n + "s" for n in names[:2]] \
+        + ["_", "x", "0", "3", "size", "fcppt_maximum", "warn", "inf", "debuginfo", "fatal.", "level::debug"]
+    out += [f"lfs {w}" for w in words]
+    out += [f"lts {k}" for k in range(6)] + [f"lout {k}" for k in range(6)]
+    for w in names + ["x", "Debug", "debu", "debugx"]:
+        out += [f"lin {w}$", f"lin _{w}$", f"lin {w}_$", f"lin __{w}_rest$", f"lin ~{w}~next_more$", f"lin {w}_{names[0]}$", f"lin {w},x$"]
+    out += ["lin $", "lin _$", "lin __~$", "lin _x_debug$"]
+    # location algebra: every program of <= 3 steps
+    firsts = ["e", "n:a", "n:b", "n:_"]
+    steps = ["d:a", "d:b", "d:_", "s:a", "s:b", "x"]
+    progs = [[f] for f in firsts]
+    for _ in range(3):
+        out += ["loc " + ",".join(p) for p in progs]
+        progs = [p + [s] for p in progs for s in steps]
+    out += ["loc " + ",".join(p) for p in progs]
+    out += ["loc n:root,d:child", "loc n:root,s:child", "loc e,d:root,d:child", "loc n:ab,d:c", "loc n:a,d:bc"]
+    # format::chain on every pair (the same object on both sides when equal), each formatter alone
+    fm = ["-", "F", "G", "P:a", "P:", "I:x:y", "I::", "I:x:", "L:0", "L:5"]
+    for f in fm:
+        out += [f"fn {f} t", f"fn {f} _"]
+        for g in fm:
+            out.append(f"chain {f} {g} t")
+    out += ["ts hello", "ts _"]
+    for own in ("-", "F", "L:2"):
+        for add in ("-", "G", "P:p"):
+            for redirect in "01":
+                out.append(f"ls {own} {add} {redirect} msg")
+    for k in range(6):
+        out += [f"dstream {k}", f"dls {k} msg"]
+    for n in ("a", "_", "child"):
+        out += [f"pnf {n} t"] + [f"params {n} {f} t" for f in ("-", "F", "P:p")]
+    return out
+
+
+def object_api_case(r):
+    """one context; objects through all constructors with every kind of formatter; formatter(), level_sink, level_streams,
+    context::level_streams, multi-part messages, macros (evaluation count), destruction in every order"""
+    ops = ["reset", ctx_line(r)]
+    kinds = ["-", "F", "P:p", "I:[:]", "L:1"]
+    nodes = []
+    for i, f in enumerate(kinds):
+        which = (i + r.below(3)) % 3
+        name = r.choice(["a", "b", "_"])
+        if which == 0 or not nodes:
+            ops.append(f"objr {name} {f}")
+            nodes.append([name])
+        elif which == 1:
+            loc = r.choice(paths(AB, 2))
+            ops.append(f"objl {loc_str(loc)} {name} {f}")
+            nodes.append(loc + [name])
+        else:
+            pid = r.below(len(nodes))
+            ops.append(f"objc {pid} {name} {f}")
+            nodes.append(nodes[pid] + [name])
+    ops.append(f"set {loc_str(r.choice(nodes)[:1])} {rand_level(r)}")
+    alive = list(range(len(nodes)))
+    order = list(alive)
+    r.shuffle(order)
+    for victim in order:
+        for i in alive:
+            ops.append(f"fmt {i} t")
+            ops.append(f"lvl {i}")
+            k = r.below(6)
+            ops += [f"logm {i} {k} m", f"log {i} {k} m", f"logp {i} {k} p {'q' * r.below(11)}", f"sink {i} {k} {rand_fmtx(r)} m"]
+        ops.append(f"cstr {r.below(6)} {rand_fmtx(r)} m")
+        ops.append(f"del {victim}")
+        alive.remove(victim)
+        if alive and r.chance(1, 2):
+            ops.append(f"set {loc_str(nodes[r.choice(alive)])} {rand_level(r)}")
+    ops.append("get " + loc_str(nodes[0]))
+    return ops
+
+
 def batches(rng, tier):
     thorough = tier == "thorough"
     GEN_STATS.clear()
@@ -375,6 +632,32 @@ def batches(rng, tier):
         return Batch(name, ops, kind="history", note=note)
 
     yield mk("docs-example", DOCS_EXAMPLE, "examples/log/context.cpp step by step (macros, object::log, object formatters, bare reset)")
+
+    def mks(name, ops, note):
+        _account(name, ops)
+        return Batch(name, ops, kind="stateless", exhaustive=True, note=note)
+
+    yield mks("small-histories", small_history_lines(rng, thorough),
+              "digest lines: EVERY history of <= 3 state-changing operations (45 sets over the 15 locations of depth <= 3 over a,b x "
+                     "levels 1,3,-; objr; objl; objc on the first two objects) on a context with root warning, observed after every step "
+                     "(get of all 15 locations, level/enabled of every object, one log or FCPPT_LOG_* per object); the same observed only at "
+                     "the end; every history of exactly 4 operations over the depth-2 alphabet (33 operations); root - / 1 and stream "
+                     "configurations N / M over the 26-operation alphabet; the alphabet with the empty name; quick: 1/64 of the 4-operation "
+                     "histories over the full alphabet (thorough: all, plus all 5-operation histories over the 26-operation alphabet)")
+    yield mks("api-exhaustive", api_lines(),
+              "level_from_string / level_to_string / operator<< / operator>> on every name and near-miss; every location program of "
+                     "<= 3 steps (ctor, /=, /, string(), begin/end); format::chain on all pairs of 10 formatters (same object on both sides "
+                     "when equal), prefix / inserter / default_level / time_stamp; level_stream ctor, sink(), get(), formatter(), log; "
+                     "default_stream, default_level_streams; parameters, parameters_no_function")
+
+    r = rng.fork("object-api")
+    ops = []
+    for _ in range(300 if thorough else 40):
+        ops += object_api_case(r)
+    yield mk("object-api", ops,
+             "five objects (formatter none / tag / prefix / inserter / default_level) through all constructors, then formatter(), level, "
+             "FCPPT_LOG_* (evaluation count), log, a multi-part message, level_sink().log, context::level_streams() on every live object, "
+             "destroying the objects one by one in a random order")
 
     r = rng.fork("histories")
     ops = []
